@@ -138,6 +138,10 @@ func NewStream(conn net.Conn) *Stream {
 // If the context is cancelled, it closes the connection to interrupt the write.
 func (s *Stream) writeWithContext(ctx context.Context, data []byte) error {
 	if ctx.Err() != nil {
+		// Same outcome as a cancellation that lands while the write is blocked:
+		// the connection is closed, so a caller whose context ended between two
+		// I/O steps of a message or handshake does not leave it half-used.
+		_ = s.conn.Close()
 		return ctx.Err()
 	}
 
@@ -181,6 +185,9 @@ func (s *Stream) writeWithContext(ctx context.Context, data []byte) error {
 // If the context is cancelled it closes the connection to interrupt the read.
 func (s *Stream) readWithContext(ctx context.Context, data []byte) error {
 	if ctx.Err() != nil {
+		// See writeWithContext: an operation that starts after its context has
+		// ended closes the connection too, rather than leaving it half-used.
+		_ = s.conn.Close()
 		return ctx.Err()
 	}
 
